@@ -103,4 +103,18 @@ PROPS = {
         "assumptions": ["the Go race detector's happens-before analysis on the generated traffic stands for 'no unsynchronised access'; the Go memory model is not formalised"],
         "trusted": ["Go race detector (go build -race)"],
     },
+    "C03": {
+        "projection": "(i) log of the same byte stream under 8 segmentations, all compared with each other and with the model; (ii) result of every buffer.Reader call and the slice layout of Msg afterwards",
+        "rule": "(i) 250 (quick) / 5000 (thorough) streams (random sessions; every fifth: surplus-carrying Parse/Execute/Describe/Close/Sync/Flush/Query messages followed by empty-body messages) each delivered at once, one byte per read, split inside the first headers and under 4 random cut sets; (ii) 2500 / 50000 reader call sequences (typed/untyped reads, Slurp, GetString/GetBytes n/GetUint16/32/GetPrepareType with n from 0 to 2^31) on streams with bodies of size 0..2L+3 around 4095/4096/4097 and the limit, bad lengths, truncated streams; non-trivial = >= 2 calls / client sent more than the startup packet",
+        "exhaustive": False,
+        "assumptions": ["bufio.Reader + io.ReadFull are modelled as read_full over a segment list (coq/Wire/Transport.v); sizes passed to GetBytes are non-negative (the library only passes unsigned wire values)"],
+        "trusted": ["Go slice semantics (s[len(s):], cap, append-free reslicing) as written into coq/Wire/ReaderModel.v, compared on every call"],
+    },
+    "C18": {
+        "projection": "slice layout (allocation, offset, length, capacity) of reader.Msg after every call; content of every view handed out, re-checked after every later call; data retained by callbacks re-checked at every later callback and at the end",
+        "rule": "3000 (quick) / 60000 (thorough) reader call sequences as for C03 with every returned string/[]byte retained (aliasing the buffer) next to a private copy; 60 / 1500 sessions whose validator, parser and statement callbacks retain password, database, user, client parameters, query texts and parameter values while 10+ later messages of sizes 4085..4097, L-1, L, L+1, L+50, 3L, 0, 1 (unknown type, Query, COPY data, Flush) are processed",
+        "exhaustive": False,
+        "assumptions": ["Go's garbage collector does not move heap objects (allocation identity is observed through slice end addresses)"],
+        "trusted": ["Go slice semantics as written into coq/Wire/ReaderModel.v"],
+    },
 }
